@@ -46,7 +46,10 @@ def run_case(case):
     n, dw = case["n"], case["dw"]
     mon = Mon()
     from vmon.simkit import omit
-    srcs = [event.Source(**omit(rng, "event.Source", trigger=t), path=(f"s{i}",)) for i, t in enumerate(case["triggers"])]
+    naming = rng.choice(["distinct", "distinct", "distinct", "pathless", "same_path"])
+    srcs = [event.Source(**omit(rng, "event.Source", trigger=t),
+                         **({"path": (f"s{i}",)} if naming == "distinct" else {} if naming == "pathless" else {"path": ("irq",)}))
+            for i, t in enumerate(case["triggers"])]
     emap = event.EventMap()
     for k_, s in enumerate(srcs):
         emap.add(s)
